@@ -260,7 +260,7 @@ end C17
 `getKeyAndValues` (no-key group name, `%v`) and the shared key-part separator / NULL token, the placeholder format of
 `buildTrigger`, `*`/empty-argument handling, and the aggregate-call regular expression -/
 theorem C17.facts_global_window :
-    Facts.window_GlobalWindow_getKeyAndValues_strlits = ["__global__", "%v"] ∧
+    Facts.window_GlobalWindow_getKeyAndValues_strlits = ["__global__", "(", "%v"] ∧
     Facts.window_groupKeyPartSep = "|" ∧ Facts.window_groupKeyNullPart = "\\N" ∧
     Facts.window_GlobalWindow_buildTrigger_strlits.head? = some "__trig_%d__" ∧
     Facts.window_GlobalWindow_findAggCalls_strlits = ["*", "", "*"] ∧
